@@ -2,6 +2,7 @@ package bloomfilter
 
 import (
 	"encoding/binary"
+	"fmt"
 	"hash/fnv"
 	"math"
 	"os"
@@ -151,6 +152,20 @@ func LoadBloomFilter(filePath string) (*BloomFilter, error) {
 	hashFuncs := binary.LittleEndian.Uint64(header[8:16])
 	expectedN := binary.LittleEndian.Uint64(header[16:24])
 	insertions := binary.LittleEndian.Uint64(header[24:32])
+
+	// Validate the header against the file before trusting it: a damaged size
+	// field must not drive the allocation below, and size/hashFuncs feed the
+	// modulo and the probe loop of every lookup
+	stat, err := file.Stat()
+	if err != nil {
+		return nil, err
+	}
+	if size == 0 || stat.Size() < 32 || (size+7)/8 != uint64(stat.Size()-32) {
+		return nil, fmt.Errorf("invalid bloom filter: size %d bits does not match %d bytes of data", size, stat.Size()-32)
+	}
+	if hashFuncs == 0 || hashFuncs > 256 {
+		return nil, fmt.Errorf("invalid bloom filter: %d hash functions", hashFuncs)
+	}
 
 	// Read bit array
 	bits := make([]byte, (size+7)/8)
